@@ -17,6 +17,7 @@ from .pysym import SymRaise, Opaque, Cond, _unwrap0, is_int_valued
 from .kernel import OutArray, InArray
 
 PI = P.atom('pi')
+TRIG_BASE = {}      # atom name -> (kind, argument polynomial), for the numeric guard
 
 
 def _lift(x):
@@ -54,6 +55,7 @@ def sym_sin(x):
     first = x.t[min(x.t)]
     if first < 0:
         return -sym_sin(-x)
+    TRIG_BASE['sin(%s)' % x.text()] = ('sin', x)
     return P.atom('sin(%s)' % x.text())
 
 
@@ -73,6 +75,7 @@ def sym_cos(x):
     first = x.t[min(x.t)]
     if first < 0:
         return sym_cos(-x)
+    TRIG_BASE['cos(%s)' % x.text()] = ('cos', x)
     return P.atom('cos(%s)' % x.text())
 
 
